@@ -31,6 +31,14 @@ PLACEMENTS = {
     "list-other": (M.HOther, "urn:h", lambda ns: ns is not None and ns != "urn:h"),
     "list-local": (M.HLocal, "urn:h", lambda ns: ns is None),
     "list-target": (M.HTarget, "urn:x", lambda ns: ns == "urn:x"),
+    # a single (non-list) wildcard that has to absorb two sibling fragments
+    "single-pair": (M.HSingle, None, lambda ns: ns is None),
+    # mixed content in which one child is bound to a typed model (located by name) that has its own wildcard
+    "mixed-typed-child": (M.HMixed, None, lambda ns: True),
+}
+WRAPPERS = {
+    "single-pair": lambda frag: f"<holder>{frag}<zz k=\"1\"/></holder>",
+    "mixed-typed-child": lambda frag: f"<holder>lead<note lang=\"en\">{frag}</note>TAIL<b/>end</holder>",
 }
 
 
@@ -157,8 +165,14 @@ def h_generic(ch: Chooser, placement: str, max_elems: int):
     clazz, hns, admits = PLACEMENTS[placement]
     if not admits(root_ns(tree)):
         return {"skip": True, "reason": "fragment not admitted by the wildcard's namespace constraint (rejection is C10's clause)"}
-    doc = wrap(frag, hns)
+    doc = WRAPPERS[placement](frag) if placement in WRAPPERS else wrap(frag, hns)
+    if hns:
+        # holders that live in a namespace: the user map making that namespace the default is always tried
+        ser_map = [None, {None: hns}][ch.choose(2, "serializer.ns_map", free=True)]
+    else:
+        ser_map = [None, {None: "urn:x"}, {"x": "urn:y"}][ch.choose(3, "serializer.ns_map")]
     case["document"] = doc
+    case["serializer_ns_map"] = repr(ser_map)
     doc_tree = resolve_xsi(I.parse_scoped(doc))
     tp = None
     for hname, handler in HANDLERS:
@@ -174,13 +188,13 @@ def h_generic(ch: Chooser, placement: str, max_elems: int):
         got = r[1]
         items = getattr(got, "any", None) if placement != "mixed-any" else getattr(got, "content", None)
         first = items if not isinstance(items, list) else next((x for x in items if not isinstance(x, str)), None)
-        if isinstance(first, AnyElement) and isinstance(tp, AnyElement):
+        if placement not in WRAPPERS and isinstance(first, AnyElement) and isinstance(tp, AnyElement):
             a, b = actual_any(first), actual_any(tp)
             if a != b:
                 return dict(ok=False, case=c, bucket=f"{placement}/{hname}/differs-from-tree-parser/" + feat(root), detail=f"wildcard: {first!r}\ntree parser: {tp!r}")
         # (ii) render(parse(d)) has the same infoset
         for wname, writer in WRITERS:
-            s = call(XmlSerializer(context=ctx, config=SerializerConfig(xml_declaration=False), writer=writer).render, got)
+            s = call(XmlSerializer(context=ctx, config=SerializerConfig(xml_declaration=False), writer=writer).render, got, dict(ser_map) if ser_map else None)
             cc = {**c, "writer": wname}
             if s[0] == "exc":
                 return dict(ok=False, case=cc, bucket=f"{placement}/{hname}-{wname}/render-raises-{type(s[1]).__name__}/" + feat(root), detail=repr(s[1]))
